@@ -1,1 +1,2 @@
 #![allow(dead_code, unused_imports)]
+// C21 harnesses live in zbus_message.rs (they need message internals to build a placeholder Message).
